@@ -999,6 +999,43 @@ def formula_errors(fl) -> dict:
     return out
 
 
+def probe_arguments(fl):
+    """The translated __init__ programs copy their list / dict arguments (`list(p or [])`, `p.copy()`) and compute a new
+    degree (`nan_to_num`): a constructor must neither modify a mutable argument nor keep a reference to it.  Returns
+    [(label, what, call)] for every disagreement (object identity is not part of the Coq model, so this is checked here)."""
+    problems = []
+
+    def snap(a):
+        if isinstance(a, np.ndarray):
+            return [bits(x) for x in a.ravel()]
+        if isinstance(a, dict):
+            return [(k, repr(v)) for k, v in a.items()]
+        return [id(x) if hasattr(x, "__dict__") else repr(x) for x in a]
+
+    def check(label, call, build, arg, mutate):
+        before = snap(arg)
+        obj = build(arg)
+        if snap(arg) != before:
+            problems.append((label, "modifies its argument", call))
+        d1 = val_lit(fl, obj)
+        mutate(arg)
+        if val_lit(fl, obj) != d1:
+            problems.append((label, "keeps a reference to its argument", call))
+
+    t = lambda: fl.Constant("c", 1.0)
+    check("Function.variables", "Function('f', 'k', variables=d); d['zz'] = 1.0", lambda d: fl.Function("f", "k", variables=d), {"k": 2.0}, lambda d: d.__setitem__("zz", 1.0))
+    check("Linear.coefficients", "Linear('l', c); c.append(9.0)", lambda c: fl.Linear("l", c), [1.0, 2.0], lambda c: c.append(9.0))
+    check("Discrete.values", "Discrete('d', xy); xy.extend([5.0, 6.0])", lambda xy: fl.Discrete("d", xy), [1.0, 2.0, 3.0, 4.0], lambda xy: xy.extend([5.0, 6.0]))
+    for cls in ("Variable", "InputVariable", "OutputVariable"):
+        check(f"{cls}.terms", f"{cls}('v', terms=ts); ts.append(term)", lambda ts, cls=cls: getattr(fl, cls)("v", terms=ts), [t()], lambda ts: ts.append(t()))
+    check("Aggregated.terms", "Aggregated('a', terms=ts); ts.append(activated)", lambda ts: fl.Aggregated("a", terms=ts), [fl.Activated(t(), 0.5)], lambda ts: ts.append(fl.Activated(t(), 0.25)))
+    check("RuleBlock.rules", "RuleBlock('rb', rules=rs); rs.append(rule)", lambda rs: fl.RuleBlock("rb", rules=rs), [fl.Rule.create("if a is b then c is d")], lambda rs: rs.append(fl.Rule.create("if a is b then c is e")))
+    for param, mk in (("input_variables", lambda: fl.InputVariable("i")), ("output_variables", lambda: fl.OutputVariable("o")), ("rule_blocks", lambda: fl.RuleBlock("r"))):
+        check(f"Engine.{param}", f"Engine('e', {param}=xs); xs.append(x)", lambda xs, param=param: fl.Engine("e", **{param: xs}), [mk()], lambda xs, mk=mk: xs.append(mk()))
+    check("Activated.degree", "Activated(term, a) with a = array([nan, inf, -inf, 0.5]); a[3] = 0.25", lambda a: fl.Activated(t(), a), np.array([math.nan, math.inf, -math.inf, 0.5]), lambda a: a.__setitem__(3, 0.25))
+    return problems
+
+
 def eval_variant(fl, alias, tree):
     src = expr_src(tree)
     ns = fresh_namespace(fl, alias)
@@ -1118,6 +1155,9 @@ def run(ctx, build, verdict, ev):
         index_c.append(("C", alias, src[:300], want[:200]))
     if unknown_exc:
         st.dist["variant:skipped-unmapped-exception"] = sum(unknown_exc.values())
+    for label, what, call in probe_arguments(fl):
+        verdict.add_broken("correspondence", f"C15:constructor-argument:{label}", f"the constructor {what} (the translated __init__ program copies it): {call}")
+    st.count("probe:constructor-arguments", 12)
 
     mism = []
     if not build.translation_errors:
